@@ -197,6 +197,7 @@ func (in *Interp) reset(prefix []int) {
 	in.ptrIDs = map[*Value]int{}
 	in.unknownBranch = 0
 	in.guardsOff = false
+	in.quotedOf = map[string]Term{}
 	in.lockCount = map[*Value]int{}
 }
 
